@@ -92,6 +92,85 @@ def _scan_to_matching_brace(text, start):
     raise LostAnchor("unbalanced braces")
 
 
+def _mask(text):
+    """same-length copy of `text` with string / char literals and comments blanked (for brace and token scans)"""
+    out = list(text)
+    for m in re.finditer(r'"(\\.|[^"\\])*"|//[^\n]*|/\*.*?\*/|\'(\\x[0-9a-fA-F]{2}|\\u\{[0-9a-fA-F]+\}|\\.|[^\'\\])\'', text, re.S):
+        for k in range(m.start(), m.end()):
+            if out[k] != "\n":
+                out[k] = " "
+    return "".join(out)
+
+
+def _split_top(cond_mask, cond, tok):
+    """split `cond` at the occurrences of `tok` that are outside every ( [ { of the masked copy"""
+    parts, depth, last, i = [], 0, 0, 0
+    while i < len(cond_mask):
+        c = cond_mask[i]
+        if c in "([{":
+            depth += 1
+        elif c in ")]}":
+            depth -= 1
+        elif depth == 0 and cond_mask.startswith(tok, i):
+            parts.append(cond[last:i])
+            i += len(tok)
+            last = i
+            continue
+        i += 1
+    parts.append(cond[last:])
+    return parts
+
+
+def _desugar_let_chains(body):
+    """Verus has no let-chains. `if A && let P = E && B { S }` WITHOUT an else branch is read as the nested
+    `if A { if let P = E { if B { S } } }` (same evaluation order, same bindings in S, nothing runs when any
+    conjunct fails). A chain with an else branch, or in a `while`, is left alone (Verus then rejects the unit:
+    undecided). Returns (text, number of chains rewritten)."""
+    n_done = 0
+    mask = _mask(body)
+    starts = [m.start() for m in re.finditer(r"\bif\b", mask)]
+    for st in reversed(starts):
+        mask = _mask(body)
+        # the condition runs to the first `{` outside ( [ and outside a nested { (closures in arguments)
+        i, depth = st + 2, 0
+        while i < len(mask):
+            c = mask[i]
+            if c in "([":
+                depth += 1
+            elif c in ")]":
+                depth -= 1
+            elif c == "{" and depth == 0:
+                break
+            elif c == ";" and depth == 0:
+                i = -1
+                break
+            i += 1
+        if i < 0 or i >= len(mask):
+            continue
+        cond, cond_mask = body[st + 2:i], mask[st + 2:i]
+        if not re.search(r"&&\s*let\b", cond_mask) and not (re.match(r"\s*let\b", cond_mask) and "&&" in cond_mask):
+            continue
+        parts = [p.strip() for p in _split_top(cond_mask, cond, "&&")]
+        if len(parts) < 2 or not any(re.match(r"let\b", p) for p in parts):
+            continue
+        if any("||" in _mask(p) and not re.match(r"let\b", p) and _split_top(_mask(p), p, "||")[1:] for p in parts):
+            continue        # `a || b && let ..` does not parse as a chain anyway; leave it to the compiler
+        end = _scan_to_matching_brace(body, i)
+        if re.match(r"\s*else\b", mask[end:]):
+            continue
+        # group neighbouring boolean conjuncts, one nesting level per `let`
+        groups = []
+        for p in parts:
+            if re.match(r"let\b", p) or not groups or re.match(r"let\b", groups[-1]):
+                groups.append(p)
+            else:
+                groups[-1] = groups[-1] + " && " + p
+        head = " ".join("if %s {" % g for g in groups)
+        body = body[:st] + head + body[i + 1:end] + "}" * (len(groups) - 1) + body[end:]
+        n_done += 1
+    return body, n_done
+
+
 def extract_fn(src_text, anchor, scope=None):
     lines = src_text.split("\n")
     lo, hi = 0, len(lines)
@@ -396,6 +475,10 @@ def assemble(unit, repo):
                 body, n = re.subn(old, new, body)
                 sig_v, n2 = re.subn(old, new, sig_v)
                 substituted.append({"from_regex": old, "to": new, "occurrences": n + n2})
+            # (1c) let-chains without an else branch, still present after the unit's own substitutions, are nested
+            body, n_chain = _desugar_let_chains(body)
+            if n_chain:
+                shape["let_chains_nested"] = n_chain
             # (2) hints and loop invariants
             body_lines = body.split("\n")
             lost = []
